@@ -224,6 +224,10 @@ Extraction "model.ml"
   graph_arcs
   pmf_run
   pmf_ord_run
+  pmf_ord_run_prefix
+  caller_pool
+  caller_threads
+  seq_branch
   pmf_tasks
   combine_results
   seq_fold
